@@ -29,6 +29,17 @@ theorem FromDom.TextStable.textLoop {S : Schema} (h : FromDom.TextStable S) : Te
 theorem FromDom.TextStable.stableP {S : Schema} (h : FromDom.TextStable S) : TextStableP S :=
   h.textLoop.stable
 
+/-- the parser's "leaf types accept the empty content" is "the start state of a leaf type's automaton
+    is a valid end" (the form `C15.LeafEmpty` and `createAndFill_eq_toOption` use) -/
+theorem FromDom.leafOk_iff (S : Schema) :
+    FromDom.LeafOk S ↔ ∀ t, (S.nodeType t).isLeaf = true → (S.dfa t).validEnd 0 = true := by
+  unfold FromDom.LeafOk
+  simp only [Dfa.accepts, Dfa.run]
+
+/-- the parser's determinism condition is the `hdet` of `C15.createAndFill_valid` -/
+theorem FromDom.det_iff (S : Schema) :
+    FromDom.Det S ↔ ∀ w q, (((S.dfa w).edgesOf q).map (·.1)).Nodup := Iff.rfl
+
 private def mkNT (isText : Bool) (dfa : Array DfaState) : NodeType :=
   { name := "", isText := isText, isInline := isText, isLeaf := isText, isAtom := isText,
     inlineContent := !isText, isolating := false, defining := false, code := false,
